@@ -9,5 +9,7 @@ MCFormatters == {"goimports", "gofmt", "noop"}
 MCTemplates  == {"testify", "matryer"}
 MCPlacements == {"separate", "inpkg"}
 MCPathKinds  == {"abs", "rel"}          \* boilerplate-file given absolute / relative to the working directory
+MCTdLevels   == {"pkg", "both", "root"}
+MCFsStates   == {"bare", "entries"}
 MCSpellings  == {"full", "min"}         \* expression written fully parenthesised / with minimal parentheses
 =============================================================================
